@@ -42,7 +42,7 @@ def gen_cases(rng, tier):
         else:
             keys = hexlib.gen_universe(rng, rng.randint(1, 9))
         values = [hexlib.gen_value(rng) for _ in range(3)]
-        ops = hexlib.gen_history(rng, keys, values, rng.randint(1, 14), batch_prob=0.0)
+        ops = hexlib.gen_history(rng, keys, values, rng.randint(1, 14), batch_prob=0.15)
         yield {"prune": rng.random() < 0.3, "ops": ops, "pseed": rng.randrange(1 << 30)}
     yield {"prune": False, "ops": [["set", "123456", "61"], ["set", "123457", "62"]], "pseed": 1}
     yield {"prune": False, "ops": [["set", "", "61"]], "pseed": 1}
@@ -142,9 +142,14 @@ def run_case(case):
     def observe(runner, tg, trie, model):
         # the same trie object is queried between mutations (results cached per object would go stale)
         Jm = sorted((_nib(k), v) for k, v in model.items())
+        # root_node after every operation and after every block (committed or aborted): always traverse(()) of the current root
+        rn = hexlib.fmt_traverse(lambda: trie.root_node)
+        res.emit("hx.rootnode %s" % tg, rn)
+        if rn != hexlib.fmt_traverse(lambda: trie.traverse(())):
+            res.fail("root-node-differs", "mid-history root_node != traverse(()) (contents %r)" % (sorted(model.items()),))
         for p in probe_paths(model, orng, 3):
             out = hexlib.fmt_traverse(lambda: trie.traverse(p))
-            res.emit("hx.trav 0 %s" % nibstr(p), out)
+            res.emit("hx.trav %s %s" % (tg, nibstr(p)), out)
             if out != describe(Jm, p):
                 res.fail("traverse-wrong", "mid-history traverse(%s): got %s ; contents require %s" % (nibstr(p), out, describe(Jm, p)))
 
